@@ -1,5 +1,6 @@
 import EupsModel.Lemmas.SetupFrame
 import EupsModel.Lemmas.SetupKeep
+import EupsModel.Lemmas.SetupInverse
 /-! C04 — setup changes only what it was asked to (keep, just, max-depth, bystanders).
 Model: `EupsModel/Model/Setup.lean`; lemmas: `EupsModel/Lemmas/SetupInv.lean`, `SetupFrame.lean`, `SetupKeep.lean`.
 
@@ -25,6 +26,21 @@ theorem C04_frame (db : Db) (fuel : Nat) (fwd : Bool) (r : Request) (e : Setup.E
   | true => exact key true 0 false r.vro r.name r.version none (St.init e) s' ⟨0, Within.root⟩ (init_alreadyOK db e) (SameFor.refl m e) h
   | false => exact key false 0 false r.vro r.name none none (St.init e) s' ⟨0, Within.root⟩ (init_alreadyOK db e) (SameFor.refl m e) h
 
+/-- … and so does every `envSet` variable that no table of a reachable product sets (own `envSet` variables of
+bystanders included, whatever the tables look like) -/
+theorem C04_frame_vars (db : Db) (fuel : Nat) (fwd : Bool) (r : Request) (e : Setup.Env) (s' : St) (var : Str)
+    (hvar : ¬ SetVar db (fun n => ∃ k, Within db r.name k n) var)
+    (h : (if fwd then runSetup db fuel r e else runUnsetup db fuel r e) = .ok s') :
+    aget s'.env.vars var = aget e.vars var := by
+  have key := setup_subjInv (r.cfg db) (fun _ n => ∃ k, Within db r.name k n) _
+    (within_closedAt_unbounded (r.cfg db) r.name) (varsOther_subjInv (r.cfg db) _ e) fuel
+  have hvar' : ¬ SetVar (r.cfg db).db (fun n => ∃ _ : Nat, ∃ k, Within db r.name k n) var := by
+    intro ⟨d, hd, ⟨_, hk⟩, g, val, hg⟩
+    exact hvar ⟨d, hd, hk, g, val, hg⟩
+  cases fwd with
+  | true => exact key true 0 false r.vro r.name r.version none (St.init e) s' ⟨0, Within.root⟩ (init_alreadyOK db e) (fun _ _ => rfl) h var hvar'
+  | false => exact key false 0 false r.vro r.name none none (St.init e) s' ⟨0, Within.root⟩ (init_alreadyOK db e) (fun _ _ => rfl) h var hvar'
+
 /-! ## depth: with `--max-depth N` no product deeper than `N` is set up or altered -/
 
 /-- `m` is deeper than `N`: every path from the requested product to it has more than `N` edges -/
@@ -37,6 +53,18 @@ theorem C04_depth (db : Db) (fuel : Nat) (fwd : Bool) (r : Request) (N : Nat) (h
   cases fwd with
   | true => exact key true 0 false r.vro r.name r.version none (St.init e) s' ⟨Within.root, Nat.zero_le _⟩ (init_alreadyOK db e) (SameFor.refl m e) h
   | false => exact key false 0 false r.vro r.name none none (St.init e) s' ⟨Within.root, Nat.zero_le _⟩ (init_alreadyOK db e) (SameFor.refl m e) h
+
+/-- … nor is any `envSet` variable that no table of a product within `N` edges sets -/
+theorem C04_depth_vars (db : Db) (fuel : Nat) (fwd : Bool) (r : Request) (N : Nat) (hN : r.maxDepth = some N)
+    (e : Setup.Env) (s' : St) (var : Str)
+    (hvar : ¬ SetVar db (fun n => ∃ k, Within db r.name k n ∧ k ≤ N) var)
+    (h : (if fwd then runSetup db fuel r e else runUnsetup db fuel r e) = .ok s') :
+    aget s'.env.vars var = aget e.vars var := by
+  have key := setup_subjInv (r.cfg db) (fun k n => Within db r.name k n ∧ k ≤ N) _
+    (within_closedAt (r.cfg db) r.name N hN) (varsOther_subjInv (r.cfg db) _ e) fuel
+  cases fwd with
+  | true => exact key true 0 false r.vro r.name r.version none (St.init e) s' ⟨Within.root, Nat.zero_le _⟩ (init_alreadyOK db e) (fun _ _ => rfl) h var hvar
+  | false => exact key false 0 false r.vro r.name none none (St.init e) s' ⟨Within.root, Nat.zero_le _⟩ (init_alreadyOK db e) (fun _ _ => rfl) h var hvar
 
 /-- `--just` (`max_depth = 0`): only the requested product changes -/
 theorem C04_just (db : Db) (fuel : Nat) (fwd : Bool) (r : Request) (hN : r.maxDepth = some 0)
